@@ -146,7 +146,13 @@ def _plain(x):
 def build(spec):
     """Real annotation construction.  -> ('built', ann) | ('ValueError', e) | ('EXC:...', e)"""
     import jaxtyping as jt
+    import jaxtyping._array_types as at
     from env.fakes import FakeArr
+    # memoisation inside jaxtyping must not carry results from one explored path to the next
+    # (a symbolic key pinned by forking hashes like the concrete string it stands for)
+    for f in vars(at).values():
+        if hasattr(f, "cache_clear"):
+            f.cache_clear()
     try:
         with S.allow_identity_hash():
             ann = jt.Shaped[FakeArr, spec]
